@@ -241,7 +241,7 @@ ilu_zpivotL(
 	    case SMILU_3:
                 temp = z_sgn(&lu_col_ptr[pivptr]);
                 zz_mult(&temp, &temp, &drop_sum);
-                z_add(&lu_col_ptr[pivptr], &lu_col_ptr[pivptr], &drop_sum);
+                z_add(&lu_col_ptr[pivptr], &lu_col_ptr[pivptr], &temp);
 		break;
 	    case SILU:
 	    default:
